@@ -107,7 +107,8 @@ def tree_case(D):
             sibling.append([f, os.path.basename(D.choice(sibs))[:-3]])
     second = D.choice(['none', 'none', 'before', 'after'])
     return {'tree': {'top': 't', 'dirs': dirs, 'files': files}, 'raising': raising, 'sibling': sibling,
-            'second_root': second, 'index': D.choice([-1, 0]), 'root_has_init': D.chance(1, 6), 'root_on_path': D.chance(1, 4)}
+            'second_root': second, 'index': D.choice([-1, 0]), 'root_has_init': D.chance(1, 6), 'root_on_path': D.chance(1, 4),
+            'symlink': D.chance(1, 4)}
 
 
 def candidate_names(tree):
@@ -139,7 +140,8 @@ def candidate_names(tree):
 # ---------------------------------------------------------------------------
 
 def _same(a, b):
-    return os.path.realpath(a) == os.path.realpath(b)
+    # paths are compared as written (symbolic links not resolved): the alias is what the interpreter imports under
+    return os.path.abspath(a) == os.path.abspath(b)
 
 
 def check_case(case, ctx):
@@ -180,6 +182,28 @@ def check_case(case, ctx):
         elif case.get('second_root') == 'after':
             roots = [root, other]
         present, absent = candidate_names(tree)
+        alias_names = []
+        if case.get('symlink'):
+            # a package (or module file) that is reached through a symbolic link under another name: for the interpreter
+            # the alias is what counts (site/corelib -> ../store/corelib_v2 is imported as corelib)
+            pkgs = [r for r, h in tree['dirs'] if h and '/' not in r]
+            mods = [f for f in tree['files'] if f.endswith('.py') and '/' not in f]
+            store = os.path.join(base, uniq, 'store')
+            os.makedirs(store, exist_ok=True)
+            if pkgs:
+                src = os.path.join(root, pkgs[0])
+                moved = os.path.join(store, pkgs[0] + '_v2')
+                os.rename(src, moved)
+                os.symlink(moved, src)              # the original name is now an alias of store/<name>_v2
+                alias_names = [n for n in present if n == pkgs[0] or n.startswith(pkgs[0] + '.')]
+            elif mods:
+                src = os.path.join(root, mods[0])
+                moved = os.path.join(store, 'impl_' + mods[0])
+                os.rename(src, moved)
+                os.symlink(moved, src)
+                alias_names = [mods[0][:-3]]
+            if ctx is not None and alias_names:
+                ctx.tag('tree:symlinked_member')
         has_plain = any(not h for _r, h in tree['dirs'])
         n_checked = 0
         for name in present + absent:
@@ -237,7 +261,7 @@ def check_case(case, ctx):
                 if not _same(os.path.join(dpath, rel), p) or os.path.isabs(rel):
                     raise Violation('split_join:' + _shape(tree, name),
                                     'split_modpath({}) -> ({}, {}) does not join back; {}'.format(p, dpath, rel, where))
-                exp_rel = os.path.relpath(os.path.realpath(p), os.path.realpath(r[0]))
+                exp_rel = os.path.relpath(os.path.abspath(p), os.path.abspath(r[0]))
                 if rel != exp_rel:
                     raise Violation('split_rel:' + _shape(tree, name),
                                     'split_modpath({}) -> relative part {!r} expected {!r}; {}'.format(p, rel, exp_rel, where))
